@@ -108,12 +108,12 @@ type exec struct {
 	// everything delivered so far (for duplicates) as closures
 	redo []func() *tevent
 	// votes delivered (for the C01 finalize oracle): round -> blk -> set of validators
-	pcs      map[int32]map[int]map[int]bool
+	pcs map[int32]map[int]map[int]bool
 	// prevotes known to the engine's world: round -> decision (0 nil) -> validators
 	pvs map[int32]map[int]map[int]bool
 	// own non-nil precommits really sent: (round, block)
-	ownPC [][2]int
-	lastOuts int // recorder index where the last event's outputs start
+	ownPC    [][2]int
+	lastOuts int  // recorder index where the last event's outputs start
 	pending  bool // the last event's outputs are neither committed nor cut yet
 	nextTS   int64
 	maxRound int32
@@ -250,8 +250,9 @@ func (x *exec) fail(msg string) {
 
 // collect turns the recorder entries [from,to) into the outputs of event ev,
 // and runs the direct oracles on them:
-//   (ii) a vote/proposal is broadcast only when its bytes are in the synced
-//        prefix of the round WAL of this incarnation.
+//
+//	(ii) a vote/proposal is broadcast only when its bytes are in the synced
+//	     prefix of the round WAL of this incarnation.
 func (x *exec) collect(ev *tevent, from, to int, evIdx int) {
 	outs := x.r.rec.slice(0, to)
 	for i := from; i < to; i++ {
@@ -724,7 +725,9 @@ func (x *exec) pickBlock(st *tstate, round int32) *blockInfo {
 	return good[0]
 }
 
-func (x *exec) bad(b *blockInfo) bool { return b != nil && (!b.Decodable || b.ImportErr) && b.Parts != nil }
+func (x *exec) bad(b *blockInfo) bool {
+	return b != nil && (!b.Decodable || b.ImportErr) && b.Parts != nil
+}
 
 // pickDecision for votes: 0 = nil
 func (x *exec) pickDecision(st *tstate) int {
